@@ -90,6 +90,7 @@ def run(rep, tier):
         rule_loop_state(rep, m, group, build)
         if group == "asconcrypt":
             rule_open_flags(rep, m, build)
+            rule_tag_before_success(rep, ir.Module.load(lri.json), fail)
     rep.floor("C19.D1", 18)      # about half of the call sites of today's tree: refactorings merge and split them
     rep.floor("C19.D2", 10)
     rep.floor("C19.D3", 2)
@@ -719,3 +720,152 @@ def rule_open_flags(rep, m, build):
                                   config="asconcrypt")
                 else:
                     rep.instance(rid, 1, {"function": fname, "flags": oct(fl)})
+
+# ---------------------------------------------------------------------------
+def rule_tag_before_success(rep, m, fail):
+    """D7: a function that decrypts a stream (it calls *_aead_decrypt_block) may
+    report success only after the authentication tag was compared: on every
+    path from the *_aead_start call to a return that does not pass through
+    *_aead_decrypt_finalize, the returned status must be a failure value.
+    The paths are explored over the integer phi web (constants only; a branch
+    whose condition is known under the path's constants is followed one way).
+    That the result of finalize is tested is C19.D1."""
+    rid = "C19.D7"
+    rep.rule(rid, "a decrypting function returns success only on paths through the tag comparison (*_decrypt_finalize)")
+    n = 0
+    for f in m.defined():
+        if not f.srcfile.startswith(repo.REPO):
+            continue
+        calls = list(f.calls())
+        if not any((i.callee or "").endswith("_aead_decrypt_block") for i in calls):
+            continue
+        starts = [i for i in calls if (i.callee or "").endswith("_aead_start")]
+        fins = set(i.block.name for i in calls if (i.callee or "").endswith("_aead_decrypt_finalize"))
+        n += 1
+        if not starts:
+            rep.unproved_item(rid, "%s: decrypts blocks without a visible *_aead_start" % f.name)
+            continue
+        if not fins:
+            rep.violation(rid, f.name + ":no-finalize", f.src, "%s decrypts a stream but never calls *_aead_decrypt_finalize: the "
+                          "authentication tag is not compared" % f.name)
+            continue
+        rets = [i for b in f.blocks for i in b.insts if i.op == "ret"]
+        if f.d["ret"] == "void" or any(not i.ops for i in rets):
+            rep.unproved_item(rid, "%s returns no status" % f.name)
+            continue
+        sb = starts[0].block
+        # the status value on arrival at the start call: no failure has happened yet on that path
+        good, verdict = _explore_status(f, f.blocks[0].name, {}, stop={sb.name}, avoid=set(), want_ret=False)
+        env0 = good.get(sb.name, {})
+        hits, _ = _explore_status(f, sb.name, env0, stop=set(), avoid=fins, want_ret=True)
+        # value returned on a path that did pass through finalize with every test succeeding is not needed: success is
+        # "what the status variable held when decryption started"
+        bad = unk = None
+        failvals = fail.get(f.name) or set()
+        if not failvals:
+            rep.unproved_item(rid, "%s: no failure return value known" % f.name)
+            continue
+        for (retins, val, start_val) in hits:
+            if val is None:
+                unk = retins
+            elif val not in failvals:
+                bad = (retins, val)
+        if bad:
+            rep.violation(rid, f.name + ":unchecked-success", bad[0].where(),
+                          "%s can return %d (its failure value is %s) along a path from %s to this return that does not pass "
+                          "through *_aead_decrypt_finalize: truncated or modified input is accepted on that path" % (
+                              f.name, bad[1], sorted(failvals), starts[0].callee))
+        elif unk is not None:
+            rep.unproved_item(rid, "%s: a return is reachable without the tag comparison and its status is not a constant on that path" % f.name)
+        else:
+            rep.instance(rid, 1, {"function": f.name, "finalize_free_returns": len(hits), "all_report_failure": True})
+    if n == 0:
+        raise repo.AnalysisBroken("%s: no stream-decrypting function found in asconcrypt" % rid)
+
+
+def _explore_status(f, start, env0, stop, avoid, want_ret):
+    """walk the CFG from block `start` with the constants env0 (SSA id -> int),
+    not entering blocks in `avoid`; returns (arrivals {block in stop: env}, None)
+    or, with want_ret, a list of (ret instruction, constant or None, value of the
+    same status variable at the start)"""
+    hits, arrivals = [], {}
+    seen = set()
+    rets = {b.name: i for b in f.blocks for i in b.insts if i.op == "ret"}
+    # the status variable: the operand of the (single) return, resolved per path
+    work = [(start, dict(env0), None)]
+    while work and len(seen) < 20000:
+        bname, env, pred = work.pop()
+        b = f.bmap[bname]
+        env = dict(env)
+        # phis take the value of the edge we came along
+        newv = {}
+        for i in b.insts:
+            if i.op != "phi":
+                break
+            if pred is not None:
+                for v, pr in i.d["inc"]:
+                    if pr == pred:
+                        c = ceval.value(env, v)
+                        if c is not None:
+                            newv[i.id] = c
+                        else:
+                            newv[i.id] = None
+        for k, v in newv.items():
+            if v is None:
+                env.pop(k, None)
+            else:
+                env[k] = v
+        key = (bname, frozenset(env.items()))
+        if key in seen:
+            continue
+        seen.add(key)
+        if bname in stop and pred is not None:
+            arrivals.setdefault(bname, env)
+            continue
+        for i in b.insts:
+            if i.op == "phi":
+                continue
+            if i.op in ("load", "call", "invoke", "store", "alloca", "getelementptr", "br", "ret", "switch"):
+                if i.id:
+                    env.pop(i.id, None)
+                continue
+            if i.id:
+                v = ceval.step(i, env)
+                if v is not None:
+                    env[i.id] = v
+                else:
+                    env.pop(i.id, None)
+        if bname in rets and want_ret:
+            r = rets[bname]
+            val = ceval.value(env, r.ops[0])
+            sv = ceval.value(env0, r.ops[0]) if ir.is_local(r.ops[0]) else None
+            hits.append((r, val, _start_status(f, r.ops[0], env0)))
+            continue
+        t = b.insts[-1]
+        succs = [x.name for x in b.succs]
+        if t.op == "br" and t.ops:
+            c = ceval.value(env, t.ops[0])
+            if c is not None:
+                succs = [t.succs[0] if c & 1 else t.succs[1]]
+        for sname in succs:
+            if sname in avoid:
+                continue
+            work.append((sname, env, bname))
+    return (hits, None) if want_ret else (arrivals, None)
+
+
+def _start_status(f, retop, env0):
+    """value, at the start of decryption, of the variable that is finally returned: the return operand is a phi web over
+    one status variable; its members' constants at the start are in env0"""
+    seen, todo = set(), [retop]
+    while todo:
+        v = todo.pop()
+        if not ir.is_local(v) or v in seen:
+            continue
+        seen.add(v)
+        if v in env0:
+            return env0[v]
+        d = f.defs.get(v)
+        if d is not None and d.op == "phi":
+            todo += [x for x, _ in d.d["inc"]]
+    return None
